@@ -29,6 +29,7 @@ type entry struct {
 	file    string            // relative to the repository root
 	name    string            // function or method name
 	recv    string            // receiver type name for a method ("" = function); the Gallina name is <recv>_<name>
+	state   bool              // a method translated as a state transformer: the receiver's fields are variables, the result is (receiver', results)
 	as      string            // Gallina name when the Go name is already taken by another package's function
 	externs map[string]extern // functions the body calls that are NOT translated (I/O): they become leading parameters
 }
@@ -43,6 +44,7 @@ type extern struct {
 var whitelist = []entry{
 	{file: "validator.go", name: "min"},
 	{file: "validator.go", name: "ComparePath"},
+	{file: "validator.go", name: "HandleChange", recv: "Validator", state: true},
 	{file: "stat_unix.go", name: "major"},
 	{file: "stat_unix.go", name: "minor"},
 	{file: "filter.go", name: "patternWithoutTrailingGlob"},
@@ -82,6 +84,8 @@ const (
 	kPattern       // *patternmatcher.Pattern -> list N (its String())
 	kUntyped       // untyped integer constant
 	kNil           // the identifier nil
+	kSlice         // []T, T a struct type of the package -> list T (name = T); nil and empty are not distinguished
+	kFileInfo      // os.FileInfo -> Prims.FileInfo (a record of what its methods return)
 	kTime          // time.Time -> Prims.time: the (sec, nsec) pair given to time.Unix
 	kStruct        // *T, T a struct type of the package whose fields are all in the subset -> a generated Record
 )
@@ -94,7 +98,7 @@ type Ty struct {
 }
 
 func (t Ty) eq(u Ty) bool {
-	return t.k == u.k && t.bits == u.bits && (t.k != kStruct || (t.name == u.name && t.opt == u.opt))
+	return t.k == u.k && t.bits == u.bits && ((t.k != kStruct && t.k != kSlice) || (t.name == u.name && t.opt == u.opt))
 }
 
 func (t Ty) coq() string {
@@ -120,6 +124,10 @@ func (t Ty) coq() string {
 		return ident(t.name)
 	case kTime:
 		return "Prims.time"
+	case kSlice:
+		return "list " + ident(t.name)
+	case kFileInfo:
+		return "Prims.FileInfo"
 	}
 	return "?"
 }
@@ -152,6 +160,10 @@ func (t Ty) String() string {
 		return "*" + t.name
 	case kTime:
 		return "time.Time"
+	case kSlice:
+		return "[]" + t.name
+	case kFileInfo:
+		return "os.FileInfo"
 	}
 	return "invalid"
 }
@@ -199,6 +211,11 @@ var stdFuncs = map[string]struct {
 	"strings.TrimSuffix": {"Prims.strings_TrimSuffix", []Ty{{k: kString}, {k: kString}}, Ty{k: kString}},
 	"time.Unix":          {"Prims.time_Unix", []Ty{{k: kI64}, {k: kI64}}, Ty{k: kTime}},
 	"strings.Split":      {"Prims.strings_Split", []Ty{{k: kString}, {k: kString}}, Ty{k: kStrSlice}},
+	"filepath.Clean":     {"Prims.filepath_Clean", []Ty{{k: kString}}, Ty{k: kString}},
+	"filepath.IsAbs":     {"Prims.filepath_IsAbs", []Ty{{k: kString}}, Ty{k: kBool}},
+	"filepath.Dir":       {"Prims.filepath_Dir", []Ty{{k: kString}}, Ty{k: kString}},
+	"filepath.Base":      {"Prims.filepath_Base", []Ty{{k: kString}}, Ty{k: kString}},
+	"filepath.FromSlash": {"Prims.filepath_FromSlash", []Ty{{k: kString}}, Ty{k: kString}},
 }
 
 type untranslatable struct {
@@ -288,6 +305,11 @@ func (e *env) declare(n ast.Node, name string, ty Ty) error {
 	return nil
 }
 
+// declareAs: a variable of the outermost scope with a given Gallina name (the fields of a state receiver)
+func (e *env) declareAs(name string, ty Ty, coq string) {
+	e.scopes[0] = append(e.scopes[0], variable{name, ty, coq})
+}
+
 // retype changes the type of the innermost variable called name (nil-ness refinement under a guard)
 func (e *env) retype(name string, ty Ty) {
 	for i := len(e.scopes) - 1; i >= 0; i-- {
@@ -315,6 +337,7 @@ type funcSig struct {
 	params []Ty
 	res    []Ty
 	opt    bool // returns option (contains a loop, or calls such a function)
+	state  bool // state transformer: not callable from other translated functions
 }
 
 type tr struct {
@@ -330,8 +353,10 @@ type tr struct {
 	iota    int // value of iota while a constant's defining expression is translated (-1 otherwise)
 	// records emitted so far (struct types used by translated functions)
 	records    map[string]bool
+	recordZero map[string]bool // the struct has a zero value the translator can write (T_zero)
 	recordDefs []string
 	externs    map[string]extern
+	stateRecv  string // name of the receiver of a state-transformer method ("" otherwise)
 	// per function
 	cur    *funcSig
 	goName string
@@ -449,7 +474,48 @@ func (t *tr) record(n ast.Node, name string) error {
 		}
 	}
 	t.records[name] = true
-	t.recordDefs = append(t.recordDefs, fmt.Sprintf("(* struct %s (used through a pointer; nil is not modelled) *)\nRecord %s := { %s }.\n", name, ident(name), strings.Join(fields, "; ")))
+	def := fmt.Sprintf("(* struct %s (a pointer to it is the record itself unless the function tests it against nil) *)\nRecord %s := { %s }.\n", name, ident(name), strings.Join(fields, "; "))
+	// zero value and one setter per field (for x.f = e on a translated state)
+	var fnames []string
+	var ftys []Ty
+	for _, f := range st.Fields.List {
+		ty, _ := t.typeOf(f.Type)
+		if len(f.Names) == 0 {
+			fnames, ftys = append(fnames, "Stat"), append(ftys, ty)
+		}
+		for _, fn := range f.Names {
+			fnames, ftys = append(fnames, fn.Name), append(ftys, ty)
+		}
+	}
+	var zs []string
+	allZero := true
+	for i, fn := range fnames {
+		z, ok := zeroOf(ftys[i])
+		if ftys[i].k == kSlice {
+			z, ok = "(@nil "+ident(ftys[i].name)+")", true
+		}
+		if !ok {
+			allZero = false
+			break
+		}
+		zs = append(zs, fmt.Sprintf("%s_%s := %s", name, fn, z))
+	}
+	if allZero {
+		def += fmt.Sprintf("Definition %s_zero : %s := {| %s |}.\n", name, ident(name), strings.Join(zs, "; "))
+	}
+	for i, fn := range fnames {
+		var fs []string
+		for _, g := range fnames {
+			if g == fn {
+				fs = append(fs, fmt.Sprintf("%s_%s := x__", name, g))
+			} else {
+				fs = append(fs, fmt.Sprintf("%s_%s := %s_%s r__", name, g, name, g))
+			}
+		}
+		def += fmt.Sprintf("Definition %s_set_%s (r__ : %s) (x__ : %s) : %s := {| %s |}.\n", name, fn, ident(name), ftys[i].coq(), ident(name), strings.Join(fs, "; "))
+	}
+	t.recordZero[name] = allZero
+	t.recordDefs = append(t.recordDefs, def)
 	return nil
 }
 
@@ -528,11 +594,26 @@ func (t *tr) typeOf(e ast.Expr) (Ty, error) {
 				ty.name = x.Name
 				return ty, err
 			}
+			// a struct used by value (element of a slice, composite literal): same Record as through a pointer
+			if _, ok := t.pkg.structs[x.Name]; ok {
+				if err := t.record(e, x.Name); err != nil {
+					return Ty{}, err
+				}
+				return Ty{k: kStruct, name: x.Name}, nil
+			}
 		}
 	case *ast.ArrayType:
 		if x.Len == nil {
 			if id, ok := x.Elt.(*ast.Ident); ok && id.Name == "string" {
 				return Ty{k: kStrSlice}, nil
+			}
+			if id, ok := x.Elt.(*ast.Ident); ok && t.pkg != nil {
+				if _, ok := t.pkg.structs[id.Name]; ok {
+					if err := t.record(e, id.Name); err != nil {
+						return Ty{}, err
+					}
+					return Ty{k: kSlice, name: id.Name}, nil
+				}
 			}
 		}
 	case *ast.SelectorExpr:
@@ -541,6 +622,9 @@ func (t *tr) typeOf(e ast.Expr) (Ty, error) {
 		}
 		if p, ok := x.X.(*ast.Ident); ok && p.Name == "time" && x.Sel.Name == "Time" {
 			return Ty{k: kTime}, nil
+		}
+		if p, ok := x.X.(*ast.Ident); ok && p.Name == "os" && x.Sel.Name == "FileInfo" {
+			return Ty{k: kFileInfo}, nil
 		}
 	case *ast.StarExpr:
 		if id, ok := x.X.(*ast.Ident); ok && t.pkg != nil {
@@ -610,6 +694,8 @@ func (t *tr) conv(n ast.Node, v val, ty Ty) (string, error) {
 		switch ty.k {
 		case kStrSlice:
 			return "(@nil (list N))", nil
+		case kSlice:
+			return "(@nil " + ident(ty.name) + ")", nil
 		case kError:
 			return "(@None (list N))", nil
 		}
@@ -699,6 +785,11 @@ func (t *tr) expr(e ast.Expr, ev *env) (val, error) {
 		return val{}, bad(e, "identifier %s is neither a local variable nor a constant of the package", x.Name)
 	case *ast.SelectorExpr:
 		name := t.selName(x)
+		if p, ok := x.X.(*ast.Ident); ok && t.stateRecv != "" && p.Name == t.stateRecv {
+			if ty, ok := ev.lookup(p.Name + "." + x.Sel.Name); ok {
+				return val{code: ev.coqOf(p.Name + "." + x.Sel.Name), ty: ty}, nil
+			}
+		}
 		if p, ok := x.X.(*ast.Ident); ok {
 			if _, isVar := ev.lookup(p.Name); !isVar {
 				if c, ok := stdConsts[name]; ok {
@@ -762,12 +853,16 @@ func (t *tr) expr(e ast.Expr, ev *env) (val, error) {
 		if err != nil {
 			return val{}, err
 		}
-		if s.ty.k != kString {
-			return val{}, bad(e, "indexing of %s outside the subset", s.ty)
-		}
 		ic, err := t.conv(x.Index, i, Ty{k: kInt})
 		if err != nil {
 			return val{}, err
+		}
+		if s.ty.k == kSlice && t.recordZero[s.ty.name] {
+			// s[i] on a slice of structs; out of range (a panic in Go, not modelled) yields the zero value
+			return val{code: "(Prims.nth_d " + s.code + " " + ic + " " + s.ty.name + "_zero)", ty: Ty{k: kStruct, name: s.ty.name}}, nil
+		}
+		if s.ty.k != kString {
+			return val{}, bad(e, "indexing of %s outside the subset", s.ty)
 		}
 		return val{code: "(Prims.idx " + s.code + " " + ic + ")", ty: Ty{k: kUint, bits: 8}}, nil
 	case *ast.SliceExpr:
@@ -778,8 +873,12 @@ func (t *tr) expr(e ast.Expr, ev *env) (val, error) {
 		if err != nil {
 			return val{}, err
 		}
-		if s.ty.k != kString {
+		if s.ty.k != kString && s.ty.k != kSlice && s.ty.k != kStrSlice {
 			return val{}, bad(e, "slicing of %s outside the subset", s.ty)
+		}
+		sl := "Prims.slice"
+		if s.ty.k != kString {
+			sl = "Prims.lslice" // the same on lists of any element type
 		}
 		var lo, hi string
 		if x.Low != nil {
@@ -802,15 +901,65 @@ func (t *tr) expr(e ast.Expr, ev *env) (val, error) {
 		}
 		switch {
 		case lo != "" && hi != "":
-			return val{code: "(Prims.slice " + s.code + " " + lo + " " + hi + ")", ty: s.ty}, nil
+			return val{code: "(" + sl + " " + s.code + " " + lo + " " + hi + ")", ty: s.ty}, nil
 		case lo != "":
-			return val{code: "(Prims.slice_from " + s.code + " " + lo + ")", ty: s.ty}, nil
+			return val{code: "(" + sl + "_from " + s.code + " " + lo + ")", ty: s.ty}, nil
 		case hi != "":
-			return val{code: "(Prims.slice_to " + s.code + " " + hi + ")", ty: s.ty}, nil
+			return val{code: "(" + sl + "_to " + s.code + " " + hi + ")", ty: s.ty}, nil
 		}
 		return s, nil
 	case *ast.CallExpr:
 		return t.call(x, ev, false)
+	case *ast.CompositeLit:
+		id, ok := x.Type.(*ast.Ident)
+		if !ok {
+			return val{}, bad(e, "composite literal of a type outside the subset")
+		}
+		ty, err := t.typeOf(id)
+		if err != nil || ty.k != kStruct {
+			return val{}, bad(e, "composite literal of a type outside the subset")
+		}
+		st := t.pkg.structs[id.Name]
+		given := map[string]string{}
+		for _, el := range x.Elts {
+			kv, ok := el.(*ast.KeyValueExpr)
+			if !ok {
+				return val{}, bad(el, "positional composite literal")
+			}
+			k, ok := kv.Key.(*ast.Ident)
+			if !ok {
+				return val{}, bad(el, "composite literal key")
+			}
+			fty, ok := t.structField(id.Name, k.Name)
+			if !ok {
+				return val{}, bad(el, "field %s of %s", k.Name, id.Name)
+			}
+			v, err := t.expr(kv.Value, ev)
+			if err != nil {
+				return val{}, err
+			}
+			c, err := t.conv(kv.Value, v, fty)
+			if err != nil {
+				return val{}, err
+			}
+			given[k.Name] = c
+		}
+		var fs []string
+		for _, f := range st.Fields.List {
+			fty, _ := t.typeOf(f.Type)
+			for _, fn := range f.Names {
+				c, ok := given[fn.Name]
+				if !ok {
+					z, zok := zeroOf(fty)
+					if !zok {
+						return val{}, bad(e, "field %s left out of the literal has no zero value in the subset", fn.Name)
+					}
+					c = z
+				}
+				fs = append(fs, fmt.Sprintf("%s_%s := %s", id.Name, fn.Name, c))
+			}
+		}
+		return val{code: "{| " + strings.Join(fs, "; ") + " |}", ty: ty}, nil
 	}
 	return val{}, bad(e, "expression form %T outside the subset", e)
 }
@@ -986,6 +1135,20 @@ func (t *tr) binary(x *ast.BinaryExpr, ev *env) (val, error) {
 		case token.GEQ:
 			return val{code: "(Prims.i64_leb " + bc + " " + ac + ")", ty: boolT}, nil
 		}
+	case kSlice, kStrSlice:
+		// s == nil: nil and empty slices are not distinguished by the representation (README)
+		if a.ty.k == kNil || b.ty.k == kNil {
+			e := ac
+			if a.ty.k == kNil {
+				e = bc
+			}
+			switch op {
+			case token.EQL:
+				return val{code: "(Prims.slice_is_nil " + e + ")", ty: boolT}, nil
+			case token.NEQ:
+				return val{code: "(negb (Prims.slice_is_nil " + e + "))", ty: boolT}, nil
+			}
+		}
 	case kError:
 		// only comparison with nil
 		if a.ty.k == kNil || b.ty.k == kNil {
@@ -1027,6 +1190,10 @@ func (t *tr) isOptCall(e ast.Expr, ev *env) bool {
 	if !ok {
 		return false
 	}
+	if t.selName(c.Fun) == "sort.Search" {
+		_, isVar := ev.lookup("sort")
+		return !isVar
+	}
 	id, ok := c.Fun.(*ast.Ident)
 	if !ok {
 		return false
@@ -1036,6 +1203,84 @@ func (t *tr) isOptCall(e ast.Expr, ev *env) bool {
 	}
 	f, ok := t.funcs[t.dir+":"+id.Name]
 	return ok && f.opt
+}
+
+// closure translates a func literal that is passed directly to a higher-order function of Src/Prims.v
+// (it cannot escape): parameters of the given types, one result; it may read the variables around it but
+// not assign them, and contains no loop.  The Gallina function returns option (None = a loop function
+// called inside ran out of fuel).
+func (t *tr) closure(fl *ast.FuncLit, ev *env, params []Ty, res Ty, d int) (string, error) {
+	var names []*ast.Ident
+	for _, f := range fl.Type.Params.List {
+		ty, err := t.typeOf(f.Type)
+		if err != nil {
+			return "", err
+		}
+		for _, n := range f.Names {
+			if len(names) >= len(params) || !ty.eq(params[len(names)]) {
+				return "", bad(fl, "func literal: parameter types")
+			}
+			names = append(names, n)
+		}
+	}
+	if len(names) != len(params) || fl.Type.Results == nil || len(fl.Type.Results.List) != 1 || len(fl.Type.Results.List[0].Names) != 0 {
+		return "", bad(fl, "func literal: signature")
+	}
+	if rty, err := t.typeOf(fl.Type.Results.List[0].Type); err != nil || !rty.eq(res) {
+		return "", bad(fl, "func literal: result type")
+	}
+	local := map[string]bool{}
+	for _, n := range names {
+		local[n.Name] = true
+	}
+	var perr error
+	ast.Inspect(fl.Body, func(m ast.Node) bool {
+		switch s := m.(type) {
+		case *ast.ForStmt, *ast.RangeStmt, *ast.FuncLit, *ast.GoStmt, *ast.DeferStmt:
+			perr = bad(m, "loop, nested func literal, go or defer inside a func literal")
+		case *ast.AssignStmt:
+			for _, l := range s.Lhs {
+				id, ok := l.(*ast.Ident)
+				if !ok {
+					perr = bad(s, "memory write inside a func literal")
+				} else if s.Tok == token.DEFINE {
+					local[id.Name] = true
+				} else if !local[id.Name] {
+					perr = bad(s, "func literal assigns %s, a variable of the enclosing function", id.Name)
+				}
+			}
+		case *ast.IncDecStmt:
+			if id, ok := s.X.(*ast.Ident); !ok || !local[id.Name] {
+				perr = bad(s, "func literal modifies a variable of the enclosing function")
+			}
+		}
+		return true
+	})
+	if perr != nil {
+		return "", perr
+	}
+	cev := ev.clone()
+	cev.push()
+	binders := ""
+	for i, n := range names {
+		if err := cev.declare(n, n.Name, params[i]); err != nil {
+			return "", err
+		}
+		b := "_"
+		if n.Name != "_" {
+			b = cev.coqOf(n.Name)
+		}
+		binders += fmt.Sprintf(" (%s : %s)", b, params[i].coq())
+	}
+	savedCur := t.cur
+	t.cur = &funcSig{name: "func literal", params: params, res: []Ty{res}, opt: true}
+	c := &ctx{ret: func(code string) string { return "Some (" + code + ")" }, oof: "None"}
+	body, err := t.stmts(fl.Body.List, c, cev, d+1)
+	t.cur = savedCur
+	if err != nil {
+		return "", err
+	}
+	return fmt.Sprintf("(fun%s =>\n%s)", binders, body), nil
 }
 
 // callMulti: a call of a translated or external function with several results; code is a tuple
@@ -1182,7 +1427,7 @@ func (t *tr) call(x *ast.CallExpr, ev *env, allowOpt bool) (val, error) {
 			switch v.ty.k {
 			case kString:
 				return val{code: "(Prims.len " + v.code + ")", ty: Ty{k: kInt}}, nil
-			case kStrSlice:
+			case kStrSlice, kSlice:
 				return val{code: "(Prims.slen " + v.code + ")", ty: Ty{k: kInt}}, nil
 			}
 			return val{}, bad(x, "len of %s", v.ty)
@@ -1201,6 +1446,9 @@ func (t *tr) call(x *ast.CallExpr, ev *env, allowOpt bool) (val, error) {
 			if s.ty.k == kStrSlice && e.ty.k == kString {
 				return val{code: "(" + s.code + " ++ [" + e.code + "])", ty: s.ty}, nil
 			}
+			if s.ty.k == kSlice && e.ty.k == kStruct && e.ty.name == s.ty.name && !e.ty.opt {
+				return val{code: "(" + s.code + " ++ [" + e.code + "])", ty: s.ty}, nil
+			}
 			return val{}, bad(x, "append on %s", s.ty)
 		case "make":
 			if len(x.Args) >= 2 {
@@ -1214,6 +1462,14 @@ func (t *tr) call(x *ast.CallExpr, ev *env, allowOpt bool) (val, error) {
 				}
 				if ty.k == kStrSlice && n.ty.k == kUntyped && constant.Sign(n.c) == 0 {
 					return val{code: "(@nil (list N))", ty: ty}, nil
+				}
+				if ty.k == kSlice && t.recordZero[ty.name] {
+					// make([]T, n[, cap]): n zero values
+					nc, err := t.conv(x.Args[1], n, Ty{k: kInt})
+					if err != nil {
+						return val{}, err
+					}
+					return val{code: "(Prims.make_slice " + nc + " " + ty.name + "_zero)", ty: ty}, nil
 				}
 			}
 			return val{}, bad(x, "make outside the subset (only make([]string, 0[, cap]))")
@@ -1242,6 +1498,62 @@ func (t *tr) call(x *ast.CallExpr, ev *env, allowOpt bool) (val, error) {
 					r.ty.name = "os.FileMode"
 					return r, err
 				}
+				switch name {
+				case "sort.Search":
+					// sort.Search(n, func(i int) bool {..}): Go's binary search itself (Prims.sort_Search), the
+					// predicate translated as a function to option bool
+					if len(x.Args) != 2 {
+						return val{}, bad(x, "sort.Search arity")
+					}
+					fl, ok := x.Args[1].(*ast.FuncLit)
+					if !ok {
+						return val{}, bad(x, "sort.Search with a predicate that is not a func literal")
+					}
+					nv, err := t.expr(x.Args[0], ev)
+					if err != nil {
+						return val{}, err
+					}
+					nc, err := t.conv(x.Args[0], nv, Ty{k: kInt})
+					if err != nil {
+						return val{}, err
+					}
+					cl, err := t.closure(fl, ev, []Ty{{k: kInt}}, Ty{k: kBool}, 2)
+					if err != nil {
+						return val{}, err
+					}
+					code := "(Prims.sort_Search " + nc + " " + cl + ")"
+					if allowOpt {
+						return val{code: code, ty: Ty{k: kInt}}, nil
+					}
+					if t.noHoist {
+						return val{}, bad(x, "sort.Search inside a loop condition")
+					}
+					t.nhoist++
+					v := fmt.Sprintf("c__%d", t.nhoist)
+					t.hoisted = append(t.hoisted, [2]string{code, v})
+					return val{code: v, ty: Ty{k: kInt}}, nil
+				case "errors.Errorf", "errors.New":
+					// a non-nil error; its text is not modelled (the arguments are not looked at)
+					return val{code: "Prims.some_error", ty: Ty{k: kError}}, nil
+				case "errors.WithStack", "errors.Wrap", "errors.Wrapf", "errors.WithMessage":
+					// nil for nil, otherwise a non-nil error
+					if len(x.Args) < 1 {
+						return val{}, bad(x, "%s arity", name)
+					}
+					if u, ok := x.Args[0].(*ast.UnaryExpr); ok && u.Op == token.AND {
+						if _, ok := u.X.(*ast.CompositeLit); ok {
+							return val{code: "Prims.some_error", ty: Ty{k: kError}}, nil // &T{..} is never nil
+						}
+					}
+					v, err := t.expr(x.Args[0], ev)
+					if err != nil {
+						return val{}, err
+					}
+					if v.ty.k != kError {
+						return val{}, bad(x, "%s of a value of type %s", name, v.ty)
+					}
+					return val{code: "(Prims.errors_WithStack " + v.code + ")", ty: Ty{k: kError}}, nil
+				}
 				sf, ok := stdFuncs[name]
 				if !ok {
 					return val{}, bad(x, "%s is not in the table of standard-library meanings", name)
@@ -1256,6 +1568,9 @@ func (t *tr) call(x *ast.CallExpr, ev *env, allowOpt bool) (val, error) {
 		r, err := t.expr(f.X, ev)
 		if err != nil {
 			return val{}, err
+		}
+		if r.ty.k == kFileInfo && f.Sel.Name == "IsDir" && len(x.Args) == 0 {
+			return val{code: "(Prims.fi_IsDir " + r.code + ")", ty: Ty{k: kBool}}, nil
 		}
 		if r.ty.k == kUint && r.ty.name == "os.FileMode" && f.Sel.Name == "IsDir" && len(x.Args) == 0 {
 			return val{code: "(Prims.FileMode_IsDir " + r.code + ")", ty: Ty{k: kBool}}, nil
@@ -1487,13 +1802,19 @@ func (t *tr) stmts1(list []ast.Stmt, c *ctx, ev *env, d int) (string, error) {
 		}
 		return "", bad(x, "%s outside the subset", x.Tok)
 	case *ast.IncDecStmt:
-		id, ok := x.X.(*ast.Ident)
-		if !ok {
-			return "", bad(x, "++/-- on a non-variable")
-		}
 		op := token.ADD
 		if x.Tok == token.DEC {
 			op = token.SUB
+		}
+		id, ok := x.X.(*ast.Ident)
+		if !ok && t.stateRecv != "" {
+			// a place inside the receiver of a state transformer: x++  is  x = x + 1
+			as := &ast.AssignStmt{Lhs: []ast.Expr{x.X}, TokPos: x.TokPos, Tok: token.ASSIGN,
+				Rhs: []ast.Expr{&ast.BinaryExpr{X: x.X, OpPos: x.TokPos, Op: op, Y: &ast.BasicLit{ValuePos: x.TokPos, Kind: token.INT, Value: "1"}}}}
+			return t.stmts(concat([]ast.Stmt{as}, rest), c, ev, d)
+		}
+		if !ok {
+			return "", bad(x, "++/-- on a non-variable")
 		}
 		be := &ast.BinaryExpr{X: id, OpPos: x.TokPos, Op: op, Y: &ast.BasicLit{ValuePos: x.TokPos, Kind: token.INT, Value: "1"}}
 		return t.assign(x, id, be, false, rest, c, ev, d)
@@ -1538,6 +1859,30 @@ func (t *tr) stmts1(list []ast.Stmt, c *ctx, ev *env, d int) (string, error) {
 			return "", bad(x, "multiple assignment outside the subset")
 		}
 		id, ok := x.Lhs[0].(*ast.Ident)
+		if !ok && t.stateRecv != "" && x.Tok == token.ASSIGN {
+			// a write into the receiver of a state-transformer method: the field variable is rebuilt
+			lt, err := t.expr(x.Lhs[0], ev)
+			if err != nil {
+				return "", err
+			}
+			rv, err := t.expr(x.Rhs[0], ev)
+			if err != nil {
+				return "", err
+			}
+			rc, err := t.conv(x.Rhs[0], rv, lt.ty)
+			if err != nil {
+				return "", err
+			}
+			pseudo, code, err := t.stateLhs(x.Lhs[0], rc, ev)
+			if err != nil {
+				return "", err
+			}
+			r, err := t.stmts(rest, c, ev, d)
+			if err != nil {
+				return "", err
+			}
+			return fmt.Sprintf("%slet %s := %s in\n%s", ind(d), ev.coqOf(pseudo), code, r), nil
+		}
 		if !ok {
 			return "", bad(x, "assignment to a non-variable (memory writes are outside the subset)")
 		}
@@ -1687,6 +2032,53 @@ func (t *tr) stmts1(list []ast.Stmt, c *ctx, ev *env, d int) (string, error) {
 		return t.loop(x, "", rest, c, ev, d)
 	}
 	return "", bad(s, "statement form %T outside the subset", s)
+}
+
+// stateLhs: the new value of the receiver field that the assignment lhs = newVal writes into
+// (lhs is recv.f, or x[i] / x.g with x such a place)
+func (t *tr) stateLhs(lhs ast.Expr, newVal string, ev *env) (string, string, error) {
+	switch l := lhs.(type) {
+	case *ast.ParenExpr:
+		return t.stateLhs(l.X, newVal, ev)
+	case *ast.SelectorExpr:
+		if id, ok := l.X.(*ast.Ident); ok && id.Name == t.stateRecv {
+			name := id.Name + "." + l.Sel.Name
+			if _, ok := ev.lookup(name); ok {
+				return name, newVal, nil
+			}
+			return "", "", bad(lhs, "no field %s in the receiver", l.Sel.Name)
+		}
+		cur, err := t.expr(l.X, ev)
+		if err != nil {
+			return "", "", err
+		}
+		if cur.ty.k != kStruct || cur.ty.opt {
+			return "", "", bad(lhs, "write through %s", cur.ty)
+		}
+		if _, ok := t.structField(cur.ty.name, l.Sel.Name); !ok {
+			return "", "", bad(lhs, "field %s of %s", l.Sel.Name, cur.ty)
+		}
+		return t.stateLhs(l.X, "("+cur.ty.name+"_set_"+l.Sel.Name+" "+cur.code+" "+newVal+")", ev)
+	case *ast.IndexExpr:
+		cur, err := t.expr(l.X, ev)
+		if err != nil {
+			return "", "", err
+		}
+		if cur.ty.k != kSlice {
+			return "", "", bad(lhs, "element write on %s", cur.ty)
+		}
+		iv, err := t.expr(l.Index, ev)
+		if err != nil {
+			return "", "", err
+		}
+		ic, err := t.conv(l.Index, iv, Ty{k: kInt})
+		if err != nil {
+			return "", "", err
+		}
+		// out of range is a panic in Go (not modelled): the list is then unchanged
+		return t.stateLhs(l.X, "(Prims.list_set "+cur.code+" "+ic+" "+newVal+")", ev)
+	}
+	return "", "", bad(lhs, "assignment to a place that is not part of the receiver (memory writes are outside the subset)")
 }
 
 func (t *tr) assign(n ast.Node, id *ast.Ident, rhs ast.Expr, define bool, rest []ast.Stmt, c *ctx, ev *env, d int) (string, error) {
@@ -1928,6 +2320,9 @@ func isNil(n ast.Node) bool {
 }
 
 func (t *tr) loop(s ast.Stmt, label string, rest []ast.Stmt, c *ctx, ev *env, d int) (string, error) {
+	if t.stateRecv != "" && identsIn(s)[t.stateRecv] {
+		return "", bad(s, "loop that mentions the receiver of a state-transformer method")
+	}
 	switch x := s.(type) {
 	case *ast.ForStmt:
 		if x.Init != nil {
@@ -2330,6 +2725,9 @@ func hasLoopOrOptCall(t *tr, fd *ast.FuncDecl) bool {
 					found = true
 				}
 			}
+			if t.selName(x.Fun) == "sort.Search" {
+				found = true
+			}
 		}
 		return true
 	})
@@ -2474,6 +2872,33 @@ func (t *tr) function(fd *ast.FuncDecl, e entry) (string, error) {
 		}
 	}
 	sig.opt = hasLoopOrOptCall(t, fd)
+	t.stateRecv = ""
+	stateInit, stateVal, stateTy := "", "", ""
+	if e.state {
+		if fd.Recv == nil || e.recv == "" {
+			return "", bad(fd, "state transformer without receiver")
+		}
+		rn := fd.Recv.List[0].Names[0].Name
+		st := t.pkg.structs[e.recv]
+		if st == nil {
+			return "", bad(fd, "receiver type")
+		}
+		var fs []string
+		for _, f := range st.Fields.List {
+			fty, err := t.typeOf(f.Type)
+			if err != nil {
+				return "", err
+			}
+			for _, fn := range f.Names {
+				coq := ident(rn + "_" + fn.Name)
+				ev.declareAs(rn+"."+fn.Name, fty, coq)
+				stateInit += fmt.Sprintf("  let %s := (%s_%s %s) in\n", coq, e.recv, fn.Name, ident(rn))
+				fs = append(fs, fmt.Sprintf("%s_%s := %s", e.recv, fn.Name, coq))
+			}
+		}
+		t.stateRecv, stateVal, stateTy = rn, "{| "+strings.Join(fs, "; ")+" |}", ident(e.recv)
+		sig.state = true
+	}
 	t.cur, t.goName, t.aux, t.nloop = sig, fd.Name.Name, nil, 0
 	t.hoisted, t.nhoist, t.noHoist = nil, 0, false
 	if e.as != "" {
@@ -2481,8 +2906,14 @@ func (t *tr) function(fd *ast.FuncDecl, e entry) (string, error) {
 	}
 	c := &ctx{ret: func(code string) string { return code }}
 	rty := t.resCoq()
+	if e.state {
+		// every return hands back the receiver as it is at that point, with the results
+		c.ret = func(code string) string { return "(" + stateVal + ", " + code + ")" }
+		rty = "(" + stateTy + " * " + rty + ")"
+	}
 	if sig.opt {
-		c.ret = func(code string) string { return "Some (" + code + ")" }
+		inner := c.ret
+		c.ret = func(code string) string { return "Some (" + inner(code) + ")" }
 		c.oof = "None"
 		rty = "option " + rty
 	}
@@ -2491,7 +2922,8 @@ func (t *tr) function(fd *ast.FuncDecl, e entry) (string, error) {
 	if err != nil {
 		return "", err
 	}
-	body = namedInit + body
+	body = stateInit + namedInit + body
+	t.stateRecv = ""
 	var b strings.Builder
 	for _, a := range t.aux {
 		b.WriteString(a + "\n")
@@ -2519,7 +2951,7 @@ func main() {
 
 // translate never fails: whatever cannot be translated becomes an UNTRANSLATABLE comment
 func translate(root string, whitelist []entry) string {
-	t := &tr{fset: token.NewFileSet(), funcs: map[string]*funcSig{}, pkgs: map[string]*pkgInfo{}, records: map[string]bool{}, iota: -1}
+	t := &tr{fset: token.NewFileSet(), funcs: map[string]*funcSig{}, pkgs: map[string]*pkgInfo{}, records: map[string]bool{}, recordZero: map[string]bool{}, iota: -1}
 	files := map[string]*ast.File{}
 	var out strings.Builder
 	out.WriteString("(* GENERATED by tools/go2coq from the Go sources on every run of ./check — do not edit.\n")
